@@ -129,10 +129,10 @@ Section Node.
   Qed.
 
   Lemma hom0_other s : t_offerer s = false -> t_partner s = None ->
-    exists s' com p vp gain,
+    exists s' com p vp gain gv,
       handle_offer_messages d favor n E0 s =
         (s', map (fun so => (fst so, if com && (fst so =? p) then M2Answer true vp (Some gain) else M2Answer false None None))
-                 (offering (t_offers s)) ++ map (fun t => (t, M2Gain (t_pgain s'))) nb, []) /\
+                 (offering (t_offers s)) ++ map (fun t => (t, M2Gain gv)) nb, []) /\
       (com = true -> gain <> 0 /\ In p (map fst (offering (t_offers s))) /\ t_pgain s' = gain) /\
       skel s' = (4, t_cycle s, t_fin s, t_nv s, t_offers s, t_ng s, (if com then Some p else None), com, false,
                  t_pgain s') /\
@@ -159,25 +159,26 @@ Section Node.
       pose proof (nth_mod_In (isort t3_leb bests) x (0, 0, 0) Hs) as Hn.
       destruct (nth (Z.to_nat (x mod zlen (isort t3_leb bests))) (isort t3_leb bests) (0, 0, 0)) as [[vp vme] p] eqn:En.
       cbn. apply In_isort in Hn. apply Hin in Hn. simpl in Hn.
-      eexists _, true, p, (Some vp), gain. rewrite !app_nil_r. split.
+      eexists _, true, p, (Some vp), gain, _. rewrite !app_nil_r. split.
       + apply (f_equal (fun l => (_, l ++ _, @nil mev))). apply map_ext. intros so. unfold opt_is. cbn.
         destruct (fst so =? p); reflexivity.
       + split; [intros _; split; [exact Hg|split; [exact Hn|reflexivity]]|]. split; reflexivity.
     - clear Hcom. destruct s. cbn in *. subst t_partner t_offerer.
-      eexists _, false, 0, None, 0. rewrite !app_nil_r. split; [reflexivity|].
-      split; [discriminate|]. split; reflexivity.
+      eexists _, false, 0, None, 0, _. rewrite !app_nil_r. split.
+      + apply (f_equal (fun l => (_, l ++ _, @nil mev))). apply map_ext. intros so. reflexivity.
+      + split; [discriminate|]. split; reflexivity.
   Qed.
 
   (* ---------------------------------------------------------------- answer *)
   Lemma hr0_spec s src acc v g : t_offerer s = true -> t_partner s = Some src ->
-    exists s',
-      handle_response d n E0 s src acc v g = (s', map (fun t => (t, M2Gain (t_pgain s'))) nb, []) /\
+    exists s' gv,
+      handle_response d n E0 s src acc v g = (s', map (fun t => (t, M2Gain gv)) nb, []) /\
       t_pgain s' = (if acc then match g with Some x => x | None => 0 end else t_pgain s) /\
       skel s' = (4, t_cycle s, t_fin s, t_nv s, t_offers s, t_ng s, t_partner s, acc, true, t_pgain s') /\
       posts s' = posts s.
   Proof.
     intros Ho Hp. unfold handle_response, enter0, ret2, send_gain2, opt_is. rewrite Ho, Hp, Z.eqb_refl. cbn.
-    destruct s. cbn in *. subst. destruct acc; cbn; eexists; rewrite !app_nil_r; (split; [reflexivity|]); split; try reflexivity; split; reflexivity.
+    destruct s. cbn in *. subst. destruct acc; cbn; eexists _, _; rewrite !app_nil_r; (split; [reflexivity|]); split; try reflexivity; split; reflexivity.
   Qed.
 
   (* ---------------------------------------------------------------- gains complete *)
